@@ -73,7 +73,8 @@ class Boxed:
         return hash((type(self).__name__, self.payload))
 
     def __repr__(self):
-        return f"{type(self).__name__}({self.payload!r})"
+        # evaluates back to the instance in the namespace of the corpus / replay files (CLASS_EXPR below)
+        return f"{CLASS_EXPR.get(type(self), type(self).__name__)}({self.payload!r})"
 
 
 # class names whose first letters are pickle opcodes that swallow what follows (I = INT line, F = FLOAT line,
@@ -86,6 +87,79 @@ for _n in BOX_NAMES:
     BOX[_n] = type(_n, (Boxed,), {"__module__": __name__})
     globals()[_n.replace("Ω", "O")] = BOX[_n]
     globals()[_n] = BOX[_n]          # importable under its own name: instances can be pickled by reference when unregistered
+
+
+# ---- custom classes whose __qualname__ differs from their __name__, classes sharing a __name__, subclasses -----------
+# `register_type(klass, …)` and `_custom_encode(type(value))` must derive the registry key of a class with the same
+# function (Model/Serial.lean: Klass.tag); module-level classes cannot tell `__name__` from `__qualname__`.
+class Api:
+    class Session(Boxed):                 # nested: __qualname__ == "Api.Session"
+        pass
+
+    class Inner:
+        class Token(Boxed):               # nested twice; shares its __name__ with the module-level BOX["Token"]
+            pass
+
+
+class Admin:
+    class Session(Boxed):                 # the same __name__ as Api.Session in another scope
+        pass
+
+
+def _make_local():
+    class Sample(Boxed):                  # function-local: __qualname__ == "_make_local.<locals>.Sample"
+        pass
+
+    return Sample
+
+
+def _make_local2():
+    class Sample(Boxed):                  # the same __name__, local to another function
+        pass
+
+    return Sample
+
+
+LocalSample = _make_local()
+LocalSample2 = _make_local2()
+
+
+class SubItem(BOX["Item"]):               # module-level subclass of a registered class: a class of its own (`type(value)`)
+    pass
+
+
+class Scope:
+    class Item(BOX["Item"]):              # a subclass that keeps its parent's __name__ in another scope
+        pass
+
+
+# class id (as used in registration programs, corpus and replay files) -> class
+CLASSES = dict(BOX)
+CLASSES.update({"Api.Session": Api.Session, "Api.Inner.Token": Api.Inner.Token, "Admin.Session": Admin.Session,
+                "LocalSample": LocalSample, "LocalSample2": LocalSample2, "SubItem": SubItem, "Scope.Item": Scope.Item})
+CLASS_ID = {c: i for i, c in CLASSES.items()}
+CLASS_EXPR = {c: i for i, c in CLASSES.items() if i not in BOX}
+NS_CLASSES = {"Api": Api, "Admin": Admin, "Scope": Scope, "LocalSample": LocalSample, "LocalSample2": LocalSample2,
+              "SubItem": SubItem}
+# classes that cannot be pickled by reference (an unregistered instance is not a value the real picklers support)
+UNPICKLABLE = {LocalSample, LocalSample2}
+# registered for the ordinary round-trip cases, next to the BOX classes: each owns the slot of its __name__
+SCOPED_REGISTERED = [Api.Session, LocalSample]
+
+
+def klass_field(cls) -> str:
+    """protocol form of a class: <namehex> or <namehex>.<qualnamehex> (Driver/SerialDrv.lean parseKlass?)"""
+    n, q = cls.__name__.encode("utf8").hex(), cls.__qualname__.encode("utf8").hex()
+    return n if n == q else f"{n}.{q}"
+
+
+def slot(cls) -> bytes:
+    """the harness' own statement of what the registry is keyed by (mirrors Klass.tag): the class's __name__"""
+    return cls.__name__.encode("utf8")
+
+
+# every call of a harness encoder / decoder: (direction, class the pair was registered for, codec variant)
+CODEC_CALLS: list[tuple[str, type, int]] = []
 
 
 # the three codecs of the harness classes (mirrored by boxCodec / plainCodec / tolerantCodec of Driver/SerialDrv.lean):
@@ -107,9 +181,11 @@ def codec_dec(variant: int, data: bytes):
 
 def _mk_codec(cls, variant: int = 0):
     async def enc(value, *args, **kwargs):
+        CODEC_CALLS.append(("enc", cls, variant))
         return codec_enc(variant, value.payload)
 
     async def dec(value: bytes, *args, **kwargs):
+        CODEC_CALLS.append(("dec", cls, variant))
         p = codec_dec(variant, value)
         if p is None:
             raise DecodeError()
@@ -118,9 +194,23 @@ def _mk_codec(cls, variant: int = 0):
     return enc, dec
 
 
+# the registrations made for the ordinary (non-program) cases, in order: the model's `reg=` field is built from THIS
+# log (the classes that were handed to register_type), never from the keys of Serializer._type_mapping
+REGISTERED: list[tuple[type, int | None]] = [(bytes, None)]
+
+
 def register_boxes():
-    for cls in BOX.values():
+    global _REG
+    for cls in list(BOX.values()) + SCOPED_REGISTERED:
         register_type(cls, *_mk_codec(cls))
+        if (cls, 0) not in REGISTERED:
+            REGISTERED.append((cls, 0))
+    _REG = None
+
+
+def registered_slots() -> dict:
+    """slot (the class's __name__) -> (class, codec variant) of the latest registration in REGISTERED"""
+    return {slot(c): (c, v) for c, v in REGISTERED}
 
 
 def _mapping() -> dict:
@@ -149,20 +239,21 @@ class RegistrySandbox:
         self._saved = dict(m)
         m.clear()
         m.update(BASE_REG)
-        self.log: list[tuple[bytes, int | None]] = [(t, None) for t in sorted(BASE_REG)]
+        self.log: list[tuple[type, int | None]] = [(bytes, None)]
         return self
 
     def register(self, name: str, variant: int):
-        cls = BOX[name]
+        cls = CLASSES[name]
         register_type(cls, *_mk_codec(cls, variant))
-        self.log.append((name.encode("utf8"), variant))
+        self.log.append((cls, variant))
 
     def field(self) -> str:
-        return ",".join(t.hex() + ("" if v is None else f"/{v}") for t, v in self.log) or "-"
+        return ",".join(klass_field(c) + ("" if v is None else f"/{v}") for c, v in self.log) or "-"
 
     def current(self) -> dict:
-        """tag -> codec variant in force (dict-assignment semantics, as documented for register_type)"""
-        return {t: v for t, v in self.log}
+        """slot (__name__) -> (class, codec variant) in force: dict-assignment semantics, classes with one __name__ share
+        the slot (mirrors Registry.registerClass)"""
+        return {slot(c): (c, v) for c, v in self.log}
 
     def __exit__(self, *exc):
         m = _mapping()
@@ -267,7 +358,7 @@ BOX_PAYLOADS = [b"", b"abc", b"a\nb", b"1\n", b"\n.", b".", b"x" * 120 + b".", b
 
 
 def gen_boxed(rng):
-    cls = BOX[rng.choice(BOX_NAMES)]
+    cls = rng.choice(SCOPED_REGISTERED) if rng.random() < 0.3 else BOX[rng.choice(BOX_NAMES)]
     p = rng.choice(BOX_PAYLOADS) if rng.random() < 0.6 else _rand_bytes(rng, rng.randrange(0, 140))
     return cls(p)
 
@@ -318,9 +409,10 @@ SECRETS = ["s3cret", "a_b:c", "é∑", "x"]
 @dataclasses.dataclass(frozen=True)
 class Conf:
     pickle_type: str | None      # None (parameter omitted), "null", "default", "json"
-    secret: str | None
+    secret: str | None           # the TEXT of the secret
     digest: str                  # configured digest (ignored by cashews without a secret)
-    via: str = "url"             # "url": everything in the settings url; "kw": keyword arguments of Cache.setup
+    via: str = "url"             # "url": everything in the settings url; "kw": keyword arguments of Cache.setup, secret and
+                                 # digestmod as bytes; "kwstr": keyword arguments, secret and digestmod as str
 
     @property
     def pk(self) -> str:
@@ -348,8 +440,8 @@ class Conf:
         else:
             kw: dict = {"check_interval": 0}
             if self.secret is not None:
-                kw["secret"] = self.secret.encode()
-                kw["digestmod"] = self.digest.encode()
+                kw["secret"] = self.secret.encode() if self.via == "kw" else self.secret
+                kw["digestmod"] = self.digest.encode() if self.via == "kw" else self.digest
             if self.pickle_type is not None:
                 kw["pickle_type"] = self.pickle_type
             backend = cache.setup("mem://", **kw)
@@ -361,8 +453,45 @@ class Conf:
         return cache, backend, rec
 
     def fields(self, reg: str | None = None) -> str:
-        sec = self.secret.encode().hex() if self.secret else "-"
+        # the configured secret is its text: `s:` a str (settings url, str keyword), `b:` the bytes of that text
+        sec = ("b:" if self.via == "kw" else "s:") + self.secret.encode().hex() if self.secret else "-"
         return f"sec={sec} dig={self.digest} pk={self.pk} reg={REG_FIELD() if reg is None else reg}"
+
+    def probe(self) -> str:
+        """can this configuration sign at all?  'signed' | 'raises:<Error>' | 'unsigned' (observed on the real code: a
+        numeric-looking secret in the settings url is turned into a number by the url parser, see the url-numeric-secret defect in the report)"""
+        if not self.secret:
+            return "signed"
+        if self not in _PROBES:
+            async def go():
+                cache, _, _ = self.setup()
+                try:
+                    await cache.set("probe", "p")
+                except Exception as exc:  # noqa: BLE001
+                    return "raises:" + type(exc).__name__
+                raw = await cache.get_raw("probe")
+                return "signed" if isinstance(raw, bytes) and raw.startswith(self.digest.encode() + b":") else "unsigned"
+
+            _PROBES[self] = vtime.run(go)
+        return _PROBES[self]
+
+
+_PROBES: dict = {}
+
+
+def key_field(key: str) -> str:
+    """key=<hex of key.encode()> or key=! for a key text that has no UTF-8 encoding (lone surrogate)"""
+    try:
+        return "key=" + key.encode("utf8").hex()
+    except UnicodeEncodeError:
+        return "key=!"
+
+
+def key_bytes(key: str):
+    try:
+        return key.encode("utf8")
+    except UnicodeEncodeError:
+        return None
 
 
 def all_confs() -> list[Conf]:
@@ -380,13 +509,21 @@ def all_confs() -> list[Conf]:
     return out
 
 
+def spelled_secret_confs() -> list[Conf]:
+    """configurations whose secret looks like a number (or is given as str keyword): used by C09 only where `probe()`
+    says the configuration can sign"""
+    return [Conf("default", "20240117", "sha256", "url"), Conf(None, "0042", "md5", "url"), Conf("json", "1e3", "sha1", "url"),
+            Conf(None, "0", "md5", "url"), Conf("default", "0042", "md5", "kwstr"), Conf("json", "42", "sha1", "kw"),
+            Conf(None, "1e3", "sha256", "kwstr"), Conf("default", "s3cret", "sum", "kwstr")]
+
+
 _REG = None
 
 
 def REG_FIELD() -> str:
     global _REG
     if _REG is None:
-        _REG = ",".join(t.hex() for t in registered_tags()) or "-"
+        _REG = ",".join(klass_field(c) + ("" if v is None else f"/{v}") for c, v in REGISTERED) or "-"
     return _REG
 
 
@@ -447,7 +584,7 @@ def show_val(v, ids: Ids) -> str:
         return f"i:{int(v)}"
     if isinstance(v, bytes):
         return f"b:{bytes(v).hex()}"
-    tag = type(v).__name__.encode("utf8").hex()
+    tag = klass_field(type(v))
     if isinstance(v, Boxed):
         return f"x:{tag}:{v.payload.hex()}"
     return f"o:{ids.of(v)}:{tag}"
@@ -489,11 +626,14 @@ async def read(coro) -> tuple[str, object]:
     return ("value", r)
 
 
-def show_outcome(o, ids: Ids) -> str:
+def show_outcome(o, ids: Ids, key: str | None = None) -> str:
     kind, val = o
     if kind == "value":
         return "value:" + show_val(val, ids)
     if kind == "raised":
+        # `key.encode()` of a key that has no encoding: the model's macError (only when the caller names such a key)
+        if val == "UnicodeEncodeError" and key is not None and key_bytes(key) is None:
+            return "macerr:key"
         return "raised"
     return kind
 
